@@ -314,7 +314,11 @@ def _exec_cat(ctx, case):
     shift = (pa - pb) if tr else np.zeros(3)
     scale = max(1.0, float(np.abs(np.stack([cb[k] for k in "xyz"])).max()), float(np.abs(pa).max()),
                 float(np.abs(pb).max()))
-    dist = float(np.linalg.norm(pb + shift - pa))
+    # (node positions are single precision by the library's own convention -- Node.xyz() -- so
+    # coincidence of the junction nodes is judged on the float32 positions, also for trees whose
+    # columns happen to be held in double precision)
+    pa_, pb_ = pa.astype(np.float32).astype(np.float64), pb.astype(np.float32).astype(np.float64)
+    dist = float(np.linalg.norm(pb_ + (pa_ - pb_ if tr else 0) - pa_))
     # junction rule
     if tr:
         # the junction node itself: b - fl(b - a) evaluated in float32 is exactly a whenever b and a
